@@ -45,6 +45,10 @@ import (
 //	on | on:moved   node-startup event of the follower (same address | another address: what ran over connections to the
 //	                old address is dead, calls through clients bound to them are refused)
 //	gc              leader Sync + GC (partition.IsExpire)
+//	old             (first event only) the partition's family is days past its writable window: every gc is a gc tick on an
+//	                expired family (partition.IsExpire stops drained channels), the leader's log also carries the group of the
+//	                leader's local replicator, and every append batch arrives over a new write stream (BuildReplicaForLeader)
+//	lf | lf:all     the leader's local replicator has flushed: its group acknowledges everything but the last message | everything
 //	land            a follower append left in flight by fault inflightPut reaches the follower's queue now
 type event struct {
 	Kind  string
@@ -63,11 +67,11 @@ func (e event) String() string {
 			return "s:" + e.Fault
 		}
 		return "s"
-	case "on":
+	case "on", "lf":
 		if e.Mode != "" {
-			return "on:" + e.Mode
+			return e.Kind + ":" + e.Mode
 		}
-		return "on"
+		return e.Kind
 	case "fs", "lr":
 		if strings.HasPrefix(e.Mode, "back") {
 			return fmt.Sprintf("%s:%s%d", e.Kind, e.Mode, e.J)
@@ -79,12 +83,14 @@ func (e event) String() string {
 
 func parseEvent(tok string) (event, error) {
 	switch {
-	case tok == "s" || tok == "rst" || tok == "fc" || tok == "off" || tok == "on" || tok == "gc" || tok == "land" || tok == "fsw":
+	case tok == "s" || tok == "rst" || tok == "fc" || tok == "off" || tok == "on" || tok == "gc" || tok == "land" || tok == "fsw" || tok == "old" || tok == "lf":
 		return event{Kind: tok}, nil
 	case strings.HasPrefix(tok, "s:"):
 		return event{Kind: "s", Fault: tok[2:]}, nil
 	case tok == "on:moved":
 		return event{Kind: "on", Mode: "moved"}, nil
+	case tok == "lf:all":
+		return event{Kind: "lf", Mode: "all"}, nil
 	case strings.HasPrefix(tok, "a"):
 		n, err := strconv.Atoi(tok[1:])
 		return event{Kind: "a", N: n}, err
@@ -235,6 +241,16 @@ type driver struct {
 	racedCounted bool
 	laterParked  bool
 
+	// gc tick on an expired family (old worlds): tickStopped = the last tick stopped the follower's drained channel and no
+	// write stream has come since; closedByTick = the replicator that tick closed; rebuildDefect = what the partition
+	// looked like after the next write stream's BuildReplicaForLeader when it had NOT re-created the channel ("" = fine);
+	// lateWatch/latePos: a message appended after such a tick is awaited on the follower
+	tickStopped   bool
+	closedByTick  replica.Replicator
+	rebuildDefect string
+	lateWatch     bool
+	latePos       int64
+
 	// lateAppend (free-running variant) reports whether the message of leader position pos was once delivered on a
 	// stream that died before the follower answered: its append was in flight when the leader reconnected
 	lateAppend func(pos int64) bool
@@ -278,7 +294,8 @@ func (d *driver) observe() obs {
 	o := obs{FUp: w.fUp, Live: w.live.Load(), Parked: w.parked != nil}
 	q := w.lLog.Queue()
 	o.A, o.QA = q.AppendedSeq(), q.AcknowledgedSeq()
-	o.C, o.Ack = w.lCG.ConsumedSeq(), w.lCG.AcknowledgedSeq()
+	// the consumer group the leader's replicator for the follower works on
+	o.C, o.Ack = w.lRep.ReplicaIndex()-1, w.lRep.AckIndex()
 	o.Pending = w.lRep.Pending()
 	o.State, o.Msg = replica.VerifReplicatorStateType(w.lRep)
 	if w.fUp {
@@ -478,13 +495,15 @@ func (d *driver) exec(e event) {
 			d.count("fault.inflight_append_landed_later", 1)
 		}
 	case "gc":
-		if d.w.lPart.IsExpire() {
-			d.res.Fatal = "harness: leader partition reported itself expired"
+		d.doGC(pre)
+	case "old":
+		if d.evIdx != 0 || !d.w.old {
+			d.res.Fatal = "harness: event old must be the first of a script"
+			return
 		}
-		d.count("fault.leader_sync_gc", 1)
-		if q := d.w.lLog.Queue().AcknowledgedSeq(); q > pre.QA {
-			d.count("fault.leader_sync_gc.released_positions", 1)
-		}
+		d.count("worlds.family_past_writable_window", 1)
+	case "lf":
+		d.doLocalFlush(e.Mode == "all")
 	default:
 		d.res.Fatal = "harness: unknown event " + e.Kind
 	}
@@ -508,6 +527,12 @@ func (d *driver) doAppend(n int) {
 	if n > 0 && d.backSameAddr && !d.lifecycleCounted {
 		d.lifecycleCounted = true
 		d.count("lifecycle.sequences_with_offline_online_at_same_address_then_append", 1)
+	}
+	if n > 0 && w.old {
+		d.newWriteStream()
+		if d.res.Fatal != "" {
+			return
+		}
 	}
 	for i := 0; i < n; i++ {
 		q := w.lLog.Queue()
@@ -543,6 +568,133 @@ func (d *driver) doAppend(n int) {
 		}
 		d.lineL[pos] = p.UID
 		d.count("leader_appends", 1)
+		if d.lateWatch {
+			d.latePos = pos
+		}
+	}
+}
+
+// newWriteStream is what WriteHandler.Write does before the first message of a stream: BuildReplicaForLeader with the
+// shard's replica list (writes to a family past its writable window arrive over a stream of their own). After a gc tick
+// that stopped the follower's drained channel this is what has to bring the channel back.
+func (d *driver) newWriteStream() {
+	w := d.w
+	if err := w.lPart.BuildReplicaForLeader(leaderID, w.replicas); err != nil {
+		d.res.Fatal = "harness: BuildReplicaForLeader: " + err.Error()
+		return
+	}
+	d.count("lifecycle.write_streams_opened(BuildReplicaForLeader)", 1)
+	up := w.resolveChannel()
+	if !d.tickStopped {
+		return
+	}
+	d.tickStopped = false
+	d.count("lifecycle.write_stream_after_expire_tick_stopped_follower_channel", 1)
+	switch {
+	case !up:
+		d.rebuildDefect = "no-replicator-for-follower-after-new-write-stream"
+	case w.lRep == d.closedByTick:
+		d.rebuildDefect = "closed-replicator-still-registered"
+	case !w.hasGroup(followerID):
+		d.rebuildDefect = "replicator-without-consumer-group-in-log"
+	default:
+		d.rebuildDefect = ""
+		d.count("lifecycle.channel_rebuilt_by_new_write_stream_after_expire_tick", 1)
+	}
+	if d.rebuildDefect != "" {
+		d.note("after the expire tick stopped the follower's channel, BuildReplicaForLeader left: %s", d.rebuildDefect)
+	}
+	d.lateWatch = true
+}
+
+// doGC is the leader's wal gc tick on this partition (writeAheadLog.destroy -> partition.IsExpire): Sync + GC, and - when
+// the family is past its writable window - the expiry path: every drained consumer group is stopped together with its
+// replicator; if no group has data left the log counts as fully replicated and is destroyed.
+func (d *driver) doGC(pre obs) {
+	w := d.w
+	hadFollower, followerDrained := w.hasGroup(followerID), pre.A <= pre.Ack
+	localHasData := false
+	if w.hasGroup(leaderID) {
+		if cg, err := w.lLog.GetOrCreateConsumerGroup(fmt.Sprintf("%d", leaderID)); err == nil {
+			localHasData = !cg.IsEmpty()
+		}
+	}
+	expired := w.lPart.IsExpire()
+	d.count("fault.leader_sync_gc", 1)
+	if q := w.lLog.Queue().AcknowledgedSeq(); q > pre.QA {
+		d.count("fault.leader_sync_gc.released_positions", 1)
+	}
+	if !w.old {
+		if expired {
+			d.res.Fatal = "harness: leader partition reported itself expired"
+		}
+		return
+	}
+	d.count("expire_tick.on_family_past_writable_window", 1)
+	switch {
+	case hadFollower && !w.hasGroup(followerID):
+		d.count("expire_tick.stopped_drained_follower_channel", 1)
+		if localHasData {
+			d.count("expire_tick.stopped_drained_follower_channel.while_local_group_has_data", 1)
+		}
+		if !followerDrained {
+			d.upstreamViolated = true
+			d.violate("C08/expire-tick-stopped-follower-channel-with-pending-positions", "the gc tick stopped the follower's consumer group although it was not drained (%s)", pre.String())
+		}
+		d.tickStopped, d.closedByTick = true, nil
+		if w.chanUp {
+			d.closedByTick = w.lRep
+		}
+		d.faultSeen, d.hsAfterFault = true, false
+	case hadFollower:
+		d.count("expire_tick.follower_channel_kept(has_pending_positions)", 1)
+	default:
+		d.count("expire_tick.follower_channel_already_stopped", 1)
+	}
+	w.resolveChannel()
+	if expired {
+		// nothing in the log counts as unreplicated any more: writeAheadLog.destroy stops, closes and removes it
+		d.count("expire_tick.log_expired(all_groups_drained)", 1)
+		post := d.observe()
+		if w.fUp && d.ackArmed {
+			if post.F < post.A {
+				d.upstreamViolated = true
+				d.violate("C08/log-counted-fully-replicated-with-positions-follower-lacks/after-expire-tick",
+					"partition.IsExpire reported the leader's log as fully replicated (it is destroyed next) while the leader holds positions up to %d and the follower appended only up to %d (%s); consumer groups the log knows: %v",
+					post.A, post.F, post.String(), w.lLog.ConsumerGroupNames())
+			} else {
+				d.count("expire_tick.log_expired(all_groups_drained).follower_holds_everything", 1)
+			}
+		}
+		// the destruction and a later re-creation of the log are not modelled: the sequence ends here
+		d.res.Fatal = "stop: leader log expired"
+	}
+}
+
+// doLocalFlush: the family flushed what the leader's local replicator had written, the local group acknowledges it.
+func (d *driver) doLocalFlush(all bool) {
+	w := d.w
+	if !w.hasGroup(leaderID) {
+		d.count("local_flush.no_local_group", 1)
+		return
+	}
+	cg, err := w.lLog.GetOrCreateConsumerGroup(fmt.Sprintf("%d", leaderID))
+	if err != nil {
+		d.res.Fatal = "harness: local group: " + err.Error()
+		return
+	}
+	target := w.lLog.Queue().AppendedSeq()
+	if !all {
+		target--
+	}
+	for cg.ConsumedSeq() < target {
+		if cg.Consume() < 0 {
+			break
+		}
+	}
+	if target > cg.AcknowledgedSeq() && target <= cg.ConsumedSeq() {
+		cg.Ack(target)
+		d.count("local_flush.local_group_acknowledged", 1)
 	}
 }
 
@@ -642,7 +794,8 @@ func (d *driver) doLeaderRestart(e event) {
 	}
 	w.stopLeader()
 	d.faultSeen, d.hsAfterFault = true, false
-	d.racedOnline, d.laterParked = "", false // a new incarnation has a new replicator
+	d.racedOnline, d.laterParked = "", false                        // a new incarnation has a new replicator
+	d.tickStopped, d.closedByTick, d.rebuildDefect = false, nil, "" // ... and rebuilds its channels from the log's groups
 	if pick != nil {
 		keep := ""
 		if e.Mode == "backcg" {
@@ -766,6 +919,11 @@ func (d *driver) disarm() {
 
 func (d *driver) doStep(fault string, pre obs) {
 	w := d.w
+	if !w.resolveChannel() {
+		// an expire tick stopped the drained channel: the partition's replica loop has no replicator for the follower
+		d.count("step.no_follower_channel(stopped_by_expire_tick)", 1)
+		return
+	}
 	w.tr.clearObs()
 	d.wipedAfterHandshake = false
 	d.arm(fault)
@@ -1074,7 +1232,7 @@ func (d *driver) afterReplica(mid obs) {
 	}
 	// an answer the leader takes as acknowledgement of the offered index requires that the follower has appended
 	// exactly that message (independent of the ack-vs-appended invariant, which is suspended after a follower log loss)
-	if s.Delivered && s.GotResp && s.RespAck == s.RespIdx && d.w.fUp && d.w.lCG.AcknowledgedSeq() >= s.Idx {
+	if s.Delivered && s.GotResp && s.RespAck == s.RespIdx && d.w.fUp && d.w.lRep.AckIndex() >= s.Idx {
 		d.count("oracle.accepted_answers_checked", 1)
 		fq := d.w.fReal.Queue()
 		fb, ferr := fq.Get(s.Idx)
@@ -1189,6 +1347,12 @@ func (d *driver) checkInvariants(pre, post obs, e event, putErr bool) {
 			}
 		}
 	}
+	if d.lateWatch && w.fUp && d.latePos > 0 {
+		if u, ok := d.lineF[d.latePos]; ok && u == d.lineL[d.latePos] && post.F >= d.latePos {
+			d.lateWatch = false
+			d.count("lifecycle.late_append_replicated_after_expire_tick", 1)
+		}
+	}
 	// (3) the leader never treats a position as acknowledged that the follower has not appended
 	if d.ackArmed {
 		if post.Ack > post.F {
@@ -1288,6 +1452,12 @@ func (d *driver) progress() {
 	// "the follower has everything the leader still holds for it": nothing left to send and every position above
 	// the leader's ack for the follower is on the follower (byte equality is judged by the per-event oracle)
 	converged := func(o obs) bool {
+		if !w.chanUp {
+			// a gc tick on the expired family stopped the follower's drained channel and no write stream has come since:
+			// the partition runs no replicator for the follower (lRep is the stopped one, its state means nothing); there is
+			// nothing to resynchronise as long as nothing is held for the follower. The traffic probe below decides the rest.
+			return o.Ack >= o.A
+		}
 		if o.State != int(models.ReplicatorReadyState) || o.C != o.A {
 			return false
 		}
@@ -1304,6 +1474,10 @@ func (d *driver) progress() {
 	}
 	symptomOf := func(o obs) string {
 		switch {
+		case d.rebuildDefect != "":
+			// a gc tick on the expired family stopped the drained channel, and the write stream that came afterwards did
+			// not get a working channel back
+			return "after-expire-tick-stopped-drained-replicator/" + d.rebuildDefect
 		case o.State == int(models.ReplicatorReadyState) && o.C > o.F:
 			return "ready-but-follower-behind/" + d.desyncCause
 		case o.State != int(models.ReplicatorReadyState):
@@ -1445,7 +1619,59 @@ func genSequence(rnd *rand.Rand, idx int, maxLen int) []event {
 		}
 	}
 	down, off := false, false
-	if directed == 3 && rnd.Intn(3) == 0 {
+	old := directed == 3 && (idx/4)%2 == 1
+	if old {
+		// a partition whose family is past its writable window (late / out-of-order writes). Established channel, everything
+		// delivered; the leader's gc tick finds the follower's group drained while the local replicator still waits for the
+		// family's flush, and stops the follower's channel; later writes arrive over a new write stream and have to reach
+		// the follower through a channel BuildReplicaForLeader re-creates. One to three such rounds, with stream resets,
+		// follower / leader restarts and transport faults in between.
+		evs = append(evs, event{Kind: "old"})
+		n0 := 1 + rnd.Intn(4)
+		evs = append(evs, event{Kind: "a", N: n0})
+		for i := 0; i < n0; i++ {
+			evs = append(evs, event{Kind: "s"})
+		}
+		for rounds := 1 + rnd.Intn(3); rounds > 0; rounds-- {
+			if rnd.Intn(2) == 0 {
+				evs = append(evs, event{Kind: "lf"})
+			}
+			evs = append(evs, event{Kind: "gc"})
+			switch rnd.Intn(6) {
+			case 0:
+				evs = append(evs, event{Kind: "gc"}) // a second tick finds the channel stopped already
+			case 1:
+				evs = append(evs, event{Kind: "rst"})
+			case 2:
+				evs = append(evs, event{Kind: "s"}) // the replica loop goes round without the follower's replicator
+			}
+			m := 1 + rnd.Intn(3)
+			evs = append(evs, event{Kind: "a", N: m})
+			if f := []string{"", "", "", "send", "respLost", "getAck", "streamOpen"}[rnd.Intn(7)]; f != "" {
+				evs = append(evs, event{Kind: "s", Fault: f})
+			}
+			for i := 0; i < m; i++ {
+				evs = append(evs, event{Kind: "s"})
+			}
+			switch rnd.Intn(8) {
+			case 0:
+				evs = append(evs, event{Kind: "lr", Mode: "keep"}, event{Kind: "s"})
+			case 1:
+				evs = append(evs, event{Kind: "fs", Mode: "keep"}, event{Kind: "s"})
+			case 2:
+				evs = append(evs, event{Kind: "s"}, event{Kind: "s"})
+			}
+		}
+		if rnd.Intn(3) == 0 {
+			// the family flushes everything: once the follower is drained too, the next tick finds nothing unreplicated and
+			// the log is destroyed - the follower must hold every position by then
+			evs = append(evs, event{Kind: "s"}, event{Kind: "s"}, event{Kind: "s"}, event{Kind: "lf", Mode: "all"}, event{Kind: "gc"})
+		}
+		if len(evs)+3 > maxLen {
+			maxLen = len(evs) + 3
+		}
+	}
+	if directed == 3 && !old && rnd.Intn(3) == 0 {
 		// the follower re-creates its log behind an established, healthy stream; the leader goes on appending
 		n0 := rnd.Intn(4)
 		evs = append(evs, event{Kind: "a", N: n0 + rnd.Intn(2)}, event{Kind: "s"})
@@ -1531,6 +1757,29 @@ func genSequence(rnd *rand.Rand, idx int, maxLen int) []event {
 	}
 	for len(evs) < maxLen {
 		x := rnd.Intn(100)
+		if old {
+			// alphabet of the expired-family sequences: no offline periods, no lost leader tail (a replicator parked in its
+			// handshake while a tick closes its consumer group, and a log that expires and is created again, are not modelled)
+			switch {
+			case x < 22:
+				evs = append(evs, event{Kind: "a", N: 1 + rnd.Intn(3)})
+			case x < 58:
+				evs = append(evs, event{Kind: "s"})
+			case x < 68:
+				evs = append(evs, event{Kind: "s", Fault: []string{"send", "reqLost", "respLost", "getAck", "reset", "resetRespLost", "createClient", "streamOpen", "putErr"}[rnd.Intn(9)]})
+			case x < 72:
+				evs = append(evs, event{Kind: "rst"})
+			case x < 77:
+				evs = append(evs, event{Kind: "fs", Mode: []string{"keep", "keep", "wipe"}[rnd.Intn(3)]})
+			case x < 81:
+				evs = append(evs, event{Kind: "lr", Mode: "keep"})
+			case x < 93:
+				evs = append(evs, event{Kind: "gc"})
+			default:
+				evs = append(evs, event{Kind: "lf"})
+			}
+			continue
+		}
 		switch {
 		case down && x < 35:
 			evs = append(evs, genFollowerStart(rnd))
